@@ -163,6 +163,12 @@ Begin(q, sflag, lifeArg, qt, qc) ==
     /\ phase' = "request"
     /\ UNCHANGED <<cfg, now, cache, qn, srvv, tmo, queried>>
 
+(* resolve_name(): the address lookup asks AAAA and then A for ONE host -- the second lookup is for
+   the (absolute) candidate name the first one settled on, never for the search list again *)
+BeginFollowUp(lifeArg) ==
+    /\ phase = "rest" /\ result[1] = "answer"
+    /\ Begin(result[2], "none", lifeArg, "A", qclass)
+
 Advance(d) ==
     /\ phase = "rest" /\ now' = now + d /\ phase' = "idle"
     /\ UNCHANGED <<cfgv, cache, candv, srvv, timev, ctrv, last, queried, result>>
